@@ -327,9 +327,12 @@ impl<S: Storage> Replica<S> {
     /// does nothing and returns the existing task.
     #[deprecated(since = "0.7.0", note = "please use TaskData instead")]
     pub async fn import_task_with_uuid(&mut self, uuid: Uuid) -> Result<Task> {
-        let mut ops = self.make_operations();
-        TaskData::create(uuid, &mut ops);
-        self.commit_operations(ops).await?;
+        // A Create operation for a task that already exists is invalid, so do not record one.
+        if self.get_task_data(uuid).await?.is_none() {
+            let mut ops = self.make_operations();
+            TaskData::create(uuid, &mut ops);
+            self.commit_operations(ops).await?;
+        }
         Ok(self
             .get_task(uuid)
             .await?
